@@ -308,3 +308,29 @@ Definition seg_closest (a b p : pt) : qpt :=
 Definition qsq (x : Q) : Q := (x * x)%Q.
 Definition qdist2 (c : qpt) (p : pt) : Q :=
   let '(cx, cy, cz) := c in (qsq (cx - zq (px p)) + qsq (cy - zq (py p)) + qsq (cz - zq (pz p)))%Q.
+
+(* ---------- mesh-level entry points: Mesh.OctTree / OctTreeDepth / OctTreeWithAttributeAndDepth ---------- *)
+(* The element list handed to NewOctreeWithDepth is  primitives[i] = primitive i of the mesh, scoped to the
+   attribute  (ScanPrimitives + Scope): element i IS mesh primitive i, for every i < PrimitiveCount().
+   Point cloud (implied indices): primitive i = vertex i.  Line strip: primitive i = indices i, i+1
+   (len-1 primitives).  Triangles: primitive i = indices 3i, 3i+1, 3i+2 (len/3 primitives; a triangle
+   that names a vertex twice is a primitive like any other).  verts = the values of the chosen attribute. *)
+Definition vat (verts : list pt) (i : nat) : pt := nth i verts (0, 0, 0).
+Definition mesh_point_boxes (verts : list pt) : list box := map point_box verts.
+Fixpoint mesh_strip_boxes (verts : list pt) (idx : list nat) : list box :=
+  match idx with
+  | a :: ((b :: _) as r) => seg_box (vat verts a) (vat verts b) :: mesh_strip_boxes verts r
+  | _ => []
+  end.
+Fixpoint mesh_tri_boxes (verts : list pt) (idx : list nat) : list box :=
+  match idx with
+  | a :: b :: c :: r => tri_box (vat verts a) (vat verts b) (vat verts c) :: mesh_tri_boxes verts r
+  | _ => []
+  end.
+(* kind: 0 point cloud, 1 line strip, 2 triangles *)
+Definition mesh_boxes (kind : nat) (verts : list pt) (idx : list nat) : list box :=
+  match kind with
+  | O => mesh_point_boxes verts
+  | S O => mesh_strip_boxes verts idx
+  | _ => mesh_tri_boxes verts idx
+  end.
